@@ -805,8 +805,17 @@ def cases_C08(ctx):
     datas += [bytes([rng.randrange(256), rng.randrange(256)]) for _ in range(ctx.n(100, 2000))]
     datas += [bytes(rng.getrandbits(8) for _ in range(rng.choice([3, 4, 7, 25, 100, 1029, rng.randint(3, 1029)]))) for _ in range(ctx.n(150, 1500))]
     datas += [bytes([0] * k + [1 << rng.randrange(8)] + [0] * j) for k, j in [(rng.randint(0, 40), rng.randint(0, 40)) for _ in range(ctx.n(60, 600))]]
+    # strings whose CRC is a special value (all ones, one bit, the generator's low bits, zero)
+    for tgt in (0xFFFFFF, 0xFFFFFE, 0x000001, 0x800000, 0x7FFFFF, 0x864CFB, 0x000000, 0x0000D3):
+        for _ in range(ctx.n(3, 20)):
+            datas.append(gens.with_crc(bytes(rng.getrandbits(8) for _ in range(rng.choice([0, 1, 3, 16, 200]))), tgt))
     for d in datas:
         cs.append(case("crc " + hx(d), "crc:len%d" % min(len(d), 8), ("crc", {"data": hx(d)})))
+    # strings whose own CRC is zero (message + crc), as *inputs* of the helpers again: crc2bytes of such a string is 00 00 00
+    for d in datas[-ctx.n(40, 200):]:
+        f = d + crc24q_ref(d).to_bytes(3, "big")
+        if len(f) >= 5 and f[0] >> 4 != 0xF:          # as a payload: frame it, the frame's trailer must be its real CRC
+            cs.append(case("msg 1 " + hx(f[:1023]), "crc:zero-payload", ("serialize", {"payload": hx(f[:1023]), "label": "1"})))
     # value over message + its crc is zero
     for d in datas[-ctx.n(80, 500):]:
         f = d + crc24q_ref(d).to_bytes(3, "big")
@@ -1083,7 +1092,7 @@ def cases_C05(ctx):
                         x[len(f) - 3 + b // 8] ^= 0x80 >> (b % 8)
                     d, kind = bytes(x), "crc"
                 else:
-                    d, kind = gens.damage(rng, f, rng.choice(["1", "2", "3", "burst"]))
+                    d, kind = gens.damage(rng, f, rng.choice(["1", "2", "3", "burst", "residual"]))
                 parts.append(d)
                 kinds.append(kind)
             else:
@@ -1120,6 +1129,25 @@ def cases_C07(ctx):
     for _ in range(ctx.n(12, 120)):
         ln = rng.randint(2, 60)
         pls.append(bytes([0xD3, rng.randrange(4)]) + bytes(rng.getrandbits(8) for _ in range(ln - 2)))
+    # payloads whose frame has a *special checksum*: the CRC-24Q of header + payload is 0 (the payload ends with
+    # the checksum of what precedes it, so the trailer is 00 00 00), or has leading zero bytes / a sync byte
+    # (unknown message numbers, so that every such payload constructs)
+    for base in [gens.unknown_payload(rng, ctx.t, ln) for ln in [5, 6, 19, 300, 1023] + [rng.randint(5, 1023) for _ in range(ctx.n(35, 400))]]:
+        if len(base) < 5:
+            continue
+        body = base[:-3]
+        hdr = bytes([0xD3, len(base) >> 8, len(base) & 0xFF])
+        pls.append(body + crc24q_ref(hdr + body).to_bytes(3, "big"))            # whole-frame CRC is 0
+    tries = 0
+    want = {"00": ctx.n(6, 40), "0000": ctx.n(2, 6), "d3": ctx.n(4, 20)}
+    while any(want.values()) and tries < 400000:
+        tries += 1
+        q = gens.unknown_payload(rng, ctx.t, rng.choice([4, 7, 19]))
+        c = crc24q_ref(bytes([0xD3, 0, len(q)]) + q)
+        k = "0000" if c < 0x100 else "00" if c < 0x10000 else "d3" if (c >> 16) == 0xD3 else None
+        if k and want[k]:
+            want[k] -= 1
+            pls.append(q)
     for p in pls:
         lab = rng.choice([1, 2])
         cs.append(case("msg %d %s" % (lab, hx(p)), "ser:len%d" % min(len(p) // 128, 8), ("serialize", {"payload": hx(p), "label": str(lab)})))
@@ -1222,6 +1250,10 @@ def cases_C14(ctx):
     for p, exp, ident in items:
         names = [k for k, _ in exp]
         pick = rng.sample(names, min(len(names), 3)) + rng.sample(["_immutable", "_payload", "_payloadi", "_unknown", "_satmap", "payload", "identity", "ismsm", "NSat", "fresh_name", "DF002", "__class__x"], 4)
+        # names that are awkward for whatever builds the error text: non-ASCII identifiers, format characters,
+        # quotes, blanks, a very long name (hex-encoded in the op line)
+        odd = ["höhe", "Δt", "%s", "%d%%", "{}", "{0}", "{name}", "a b", "it's", '"q"', "\\", "x" * 300, "DF002\n", "名前"]
+        pick += ["x:" + n.encode("utf-8").hex() for n in rng.sample(odd, 2)]
         rng.shuffle(pick)
         fresh = impl.eval_guarded("msg 1 " + hx(p))
         cs.append(case("setattr 1 %s %s" % (hx(p), ",".join(pick)), "%s:%s" % (ident, "priv" if any(n.startswith("_") for n in pick[:3]) else "pub"),
